@@ -660,6 +660,11 @@ class Interp(object):
         it = self.ev(node.iter, st, fctx)
         lid = self._lid(node, fctx)
         self.loopinfo[lid] = ('for', it, node)
+        if it[0] == 'L' and isinstance(node.iter, ast.List) and len(node.iter.elts) <= 4:
+            # a list display written in place (`for a, b in [(x, 1), (y, 2)]:`) is iterated like the tuple of its elements
+            init = self.obj_init.get(it)
+            if init is not None and init[0] == 'T' and not any(x[0] == 'STAR' for x in init[1]):
+                it = init
         if it[0] == 'T' and len(it[1]) <= 4:
             # unroll iteration over a known tuple
             states = [st]
